@@ -425,6 +425,10 @@ def stepCore (e : Env) (line : String) : Env × String :=
       let some γ := parseRat g | throw "bad rat"
       let some n := ns.toNat? | throw "bad n"
       pure (e, showSpec (Pepit.Method.gdl2 L γ n))
+    | "spec.polyakf" :: _ :: l :: g :: _ =>
+      let some L := parseRat l | throw "bad rat"
+      let some γ := parseRat g | throw "bad rat"
+      pure (e, showSpec (Pepit.Method.polyakf L γ))
     | "spec.polyakd" :: _ :: g :: _ =>
       let some γ := parseRat g | throw "bad rat"
       pure (e, showSpec (Pepit.Method.polyakd γ))
